@@ -510,3 +510,173 @@ Proof.
   - vm_compute. intros E. discriminate E.
   - vm_compute. reflexivity.
 Qed.
+
+(* ================================================================== 5. exactly one Content-Length *)
+
+Definition is_cl_h (h : header) : bool := same_header (h_name h) (s2b "Content-Length").
+Definition cl_header (m : message) : header :=
+  {| h_name := s2b "Content-Length"; h_val := HRaw (itoa (Z.of_nat (List.length (m_body m)))) |}.
+(* the header fields write_message emits, in order *)
+Definition emitted_headers (m : message) : list header :=
+  filter (fun h => negb (is_cl_h h)) (m_headers m) ++ [cl_header m].
+
+(* write_message m = start line, the received headers that are not a Content-Length (any
+   spelling: full, compact "l", any case) in their order, then ONE Content-Length with the
+   number of body bytes, the empty line, the body *)
+Theorem C01_single_content_length m :
+  write_message m =
+    start_line_print (m_start m) ++ crlf ++ flat_map header_print (emitted_headers m) ++ crlf ++ m_body m
+  /\ emitted_headers m = filter (fun h => negb (is_cl_h h)) (m_headers m) ++ [cl_header m]
+  /\ Forall (fun h => is_cl_h h = false) (filter (fun h => negb (is_cl_h h)) (m_headers m))
+  /\ is_cl_h (cl_header m) = true
+  /\ header_print (cl_header m) =
+       s2b "Content-Length: " ++ itoa (Z.of_nat (List.length (m_body m))) ++ crlf
+  /\ List.length (filter is_cl_h (emitted_headers m)) = 1%nat.
+Proof.
+  assert (F : Forall (fun h => is_cl_h h = false) (filter (fun h => negb (is_cl_h h)) (m_headers m))).
+  { apply Forall_forall. intros h I. apply filter_In in I. destruct I as [_ I].
+    apply negb_true_iff. exact I. }
+  assert (C : is_cl_h (cl_header m) = true) by apply same_header_refl.
+  assert (P : header_print (cl_header m) =
+               s2b "Content-Length: " ++ itoa (Z.of_nat (List.length (m_body m))) ++ crlf).
+  { unfold header_print. cbn [cl_header h_name h_val hval_print].
+    change (s2b "Content-Length: ") with (s2b "Content-Length" ++ s2b ": ").
+    rewrite <- !app_assoc. reflexivity. }
+  repeat split; try assumption.
+  - unfold write_message, emitted_headers. rewrite flat_map_app. cbn [flat_map]. rewrite app_nil_r, P.
+    rewrite <- !app_assoc. reflexivity.
+  - unfold emitted_headers. rewrite filter_app. cbn [filter]. rewrite C.
+    assert (E : filter is_cl_h (filter (fun h => negb (is_cl_h h)) (m_headers m)) = []).
+    { induction F as [|h r Hh Hr IH]; [reflexivity|]. cbn [filter]. rewrite Hh. exact IH. }
+    rewrite E. reflexivity.
+Qed.
+
+(* ================================================================== 6. the pre-fix encoder *)
+
+(* encodeHeader compared header.name == "Content-Length" (exact spelling only) *)
+Definition write_message_legacy (m : message) : bytes :=
+  start_line_print (m_start m) ++ crlf ++
+  flat_map header_print (filter (fun h => negb (beq (h_name h) (s2b "Content-Length"))) (m_headers m)) ++
+  s2b "Content-Length: " ++ itoa (Z.of_nat (List.length (m_body m))) ++ crlf ++ crlf ++ m_body m.
+
+Definition parsed (b : bytes) : message :=
+  match parse_message b with
+  | Ok (m, _) => m
+  | _ => {| m_start := SResp [] 0 []; m_headers := []; m_body := [] |}
+  end.
+(* the verdict of the executable judge on (input bytes, output bytes); None = unreadable *)
+Definition judge_bytes (i o : bytes) : option nat :=
+  match j_read i, j_read o with Some ji, Some jo => Some (judge_C01_pair ji jo) | _, _ => None end.
+
+Definition ex_legacy_input : bytes :=
+  s2b "INVITE sip:svc@example.com SIP/2.0" ++ crlf ++ s2b "l: 3" ++ crlf ++ crlf ++ s2b "abc".
+
+(* a request with the compact header "l: 3": the pre-fix encoder emits it AND its own
+   Content-Length (two fields; the judge answers 5), the repaired one emits exactly one *)
+Theorem C01_legacy_refuted :
+  parse_message ex_legacy_input = Ok (parsed ex_legacy_input, []) /\
+  option_map in_domain_C01 (j_read ex_legacy_input) = Some true /\
+  stable (parsed ex_legacy_input) /\
+  write_message_legacy (parsed ex_legacy_input) =
+    s2b "INVITE sip:svc@example.com SIP/2.0" ++ crlf ++ s2b "l: 3" ++ crlf ++
+    s2b "Content-Length: 3" ++ crlf ++ crlf ++ s2b "abc" /\
+  option_map jm_cl_count (j_read (write_message_legacy (parsed ex_legacy_input))) = Some 2%nat /\
+  judge_bytes ex_legacy_input (write_message_legacy (parsed ex_legacy_input)) = Some 5%nat /\
+  option_map jm_cl_count (j_read (write_message (parsed ex_legacy_input))) = Some 1%nat /\
+  judge_bytes ex_legacy_input (write_message (parsed ex_legacy_input)) = Some 0%nat.
+Proof.
+  split; [vm_compute; reflexivity|]. split; [vm_compute; reflexivity|].
+  split; [apply stable_b_sound; vm_compute; reflexivity|].
+  repeat split; vm_compute; reflexivity.
+Qed.
+
+(* ================================================================== 7. non-vacuity *)
+
+Definition ex_lc : listen_cfg :=
+  {| lc_addr := s2b "10.0.0.1"; lc_udp := 5060; lc_tcp := 5060; lc_backends := [s2b "10.0.0.2:5080"];
+     lc_dynamic := false; lc_no_received := false; lc_def_route := false; lc_must_rr := true |}.
+Definition ex_cfg : cfg :=
+  {| c_name := s2b "example.com"; c_keep_next_hop := false; c_dialog_timeout := 3600;
+     c_routes := [(s2b "udp", (s2b "static.example.org", s2b "10.0.0.8:5090"))];
+     c_hosts := []; c_listens := [ex_lc] |}.
+(* one TCP peer accepts connections *)
+Definition ex_st : state := init_state ex_cfg 0 [(s2b "10.0.0.7", 5080%Z)].
+
+(* compact and odd-case names, a repeated extension header, '%', quotes, ';', ',', '<', '>',
+   non-UTF-8 bytes, a compact Content-Length that is not the last header, a body with
+   CR LF NUL *)
+Definition ex_common : bytes :=
+  s2b "v: SIP/2.0/UDP 10.0.0.9:5070;branch=z9hG4bKabc;rport" ++ crlf ++
+  s2b "f: ""A %41 \""q\"""" <sip:alice@a.example.com;x=%25>;tag=1%sz" ++ crlf ++
+  s2b "T: <sip:svc@example.com>" ++ crlf ++
+  s2b "i: call-1@host" ++ crlf ++
+  s2b "CSeq: 7 INVITE" ++ crlf ++
+  s2b "X-eXt: a;b=""c"";%d%s,<>" ++ crlf ++
+  s2b "x-ext: second, value" ++ crlf ++
+  (s2b "X-Bin: " ++ [ascii_of_nat 255; ascii_of_nat 254; "a"%char; ascii_of_nat 128]) ++ crlf ++
+  s2b "l: 7" ++ crlf ++
+  s2b "cONTENT-tYPE: application/x" ++ crlf ++
+  s2b "X-eXt: third" ++ crlf ++ crlf ++
+  [ "a"%char; ascii_of_nat 13; ascii_of_nat 10; zero; "b"%char; ascii_of_nat 10; ascii_of_nat 13 ].
+(* addressed to the service name: relayed to the backend *)
+Definition ex_req_backend : bytes := s2b "INVITE sip:svc@example.com SIP/2.0" ++ crlf ++ ex_common.
+(* carries a Route: relayed to the first route entry (over TCP: a dial, then the bytes) *)
+Definition ex_req_route : bytes :=
+  s2b "oPTIONS sip:bob@elsewhere.example.net;transport=tcp SIP/2.0" ++ crlf ++
+  s2b "Route: <sip:10.0.0.7:5080;lr;transport=tcp>,<sip:10.0.0.6;lr>" ++ crlf ++ ex_common.
+(* To host in the static route table *)
+Definition ex_req_static : bytes :=
+  s2b "MESSAGE sip:carol@static.example.org SIP/2.0" ++ crlf ++
+  s2b "To: sip:carol@static.example.org" ++ crlf ++ ex_common.
+(* a response: relayed by its second Via *)
+Definition ex_resp : bytes :=
+  s2b "SIP/2.0 183 Session  Progress" ++ crlf ++
+  s2b "Via: SIP/2.0/UDP 10.0.0.1:5060;branch=z9hG4bKpx" ++ crlf ++ ex_common.
+
+Definition ex_run (data : bytes) : res (state * list output) :=
+  proxy_step all_fixed ex_cfg 1000 (branch_of 0) ex_st (EvUdp 0 (s2b "10.0.0.9") 5070%Z data).
+Definition ex_outs (data : bytes) : list (bytes * bytes) :=
+  match ex_run data with Ok (_, outs) => map (fun o => (label_of (fst o), snd o)) outs | _ => [] end.
+
+(* hypotheses of the theorems hold on the concrete inputs ... *)
+Example ex_hypotheses :
+  Forall (fun b => parse_message b = Ok (parsed b, []) /\ stable (parsed b) /\
+                   option_map in_domain_C01 (j_read b) = Some true)
+         [ex_req_backend; ex_req_route; ex_req_static].
+Proof.
+  apply Forall_cons; [|apply Forall_cons; [|apply Forall_cons; [|apply Forall_nil]]];
+    (split; [vm_compute; reflexivity|split; [apply stable_b_sound; vm_compute; reflexivity|vm_compute; reflexivity]]).
+Qed.
+(* (the response has a start line with a run of blanks: parse/print normalises it, it is in the
+   domain of the theorem but not of the judge) *)
+Example ex_hypotheses_resp :
+  parse_message ex_resp = Ok (parsed ex_resp, []) /\ stable (parsed ex_resp) /\
+  option_map in_domain_C01 (j_read ex_resp) = Some false.
+Proof.
+  repeat split; try (vm_compute; reflexivity); apply stable_b_sound; vm_compute; reflexivity.
+Qed.
+
+(* ... and the conclusion is exercised: where each message goes, and what the executable
+   judge says about the bytes *)
+Example ex_paths :
+  map fst (ex_outs ex_req_backend) = [s2b "udp:10.0.0.2:5080"] /\
+  map fst (ex_outs ex_req_route) = [s2b "dial:10.0.0.7:5080"; s2b "conn:0"] /\
+  map fst (ex_outs ex_req_static) = [s2b "udp:10.0.0.8:5090"] /\
+  map fst (ex_outs ex_resp) = [s2b "udp:10.0.0.9:5070"] /\
+  map (fun o => judge_bytes ex_req_backend (snd o)) (ex_outs ex_req_backend) = [Some 0%nat] /\
+  map (fun o => judge_bytes ex_req_route (snd o)) (ex_outs ex_req_route) = [None; Some 0%nat] /\
+  map (fun o => judge_bytes ex_req_static (snd o)) (ex_outs ex_req_static) = [Some 0%nat] /\
+  map (fun o => view (parsed (snd o)) = view (parsed ex_resp)) (ex_outs ex_resp) = [view (parsed ex_resp) = view (parsed ex_resp)].
+Proof. repeat split; vm_compute; reflexivity. Qed.
+
+(* the theorem instantiated *)
+Example ex_backend_theorem :
+  forall st' outs, ex_run ex_req_backend = Ok (st', outs) ->
+    outs <> [] /\ forall d b, In (d, b) outs -> good (parsed ex_req_backend) d b.
+Proof.
+  intros st' outs H. split.
+  - intros ->. vm_compute in H. discriminate H.
+  - apply (C01_proxy_step_udp all_fixed ex_cfg 1000%Z (branch_of 0) ex_st 0%nat (s2b "10.0.0.9") 5070%Z
+             ex_req_backend (parsed ex_req_backend) [] st' outs); [vm_compute; reflexivity| |exact H].
+    apply stable_b_sound. vm_compute. reflexivity.
+Qed.
